@@ -95,12 +95,15 @@ def oracle_inequality(ctx, y, g, cp, ci, rng, gini_coefficient, lorenz_curve):
         return
     if cp[0] != 0 or ci[0] != 0 or abs(cp[-1] - 1) > 1e-15 or abs(ci[-1] - 1) > 1e-12:
         ctx.fail("lorenz_shape", "curve does not run from (0,0) to (1,1)", inp, [cp[0], ci[0], cp[-1], ci[-1]], [0, 0, 1, 1])
+    pre = [Fraction(0)]
+    for v in Y:
+        pre.append(pre[-1] + v)
     for i in range(n + 1):
         if abs(frac(cp[i]) - Fraction(i, n)) > Fraction(1, 10**15):
             ctx.fail("lorenz_shape", "cum_people[i] != i/n", dict(inp, i=i), cp[i], i / n)
             break
-        if abs(frac(ci[i]) - sum(Y[:i]) / S) > Fraction(1, 10**12):
-            ctx.fail("lorenz_shape", "cum_income[i] is not the share of the i poorest", dict(inp, i=i), ci[i], float(sum(Y[:i]) / S))
+        if abs(frac(ci[i]) - pre[i] / S) > Fraction(1, 10**12):
+            ctx.fail("lorenz_shape", "cum_income[i] is not the share of the i poorest", dict(inp, i=i), ci[i], float(pre[i] / S))
             break
     inc = [ci[i + 1] - ci[i] for i in range(n)]
     if any(d < -1e-13 for d in inc) or any(inc[i + 1] - inc[i] < -1e-12 for i in range(n - 1)):
@@ -145,7 +148,8 @@ def run(ctx):
     ctx.proofs()
 
     # ================= gini / lorenz / ecdf
-    lens = [1, 2, 3, 4, 5, 199, 200] + [rng.randrange(1, 201) for _ in range(260 if thorough else 70)]
+    lens = ([1, 1, 2, 2, 3, 4, 5, 199, 200] + [rng.randrange(1, 201) for _ in range(200 if thorough else 14)]
+            + [rng.randrange(2, 41) for _ in range(200 if thorough else 25)])
     cases, meta = [], []
     for n in lens:
         y = gen_sample(rng, n)
@@ -182,7 +186,7 @@ def run(ctx):
     cases, meta = [], []
     trip = [(1, Fraction(1, 2), Fraction(1, 2)), (60, Fraction(3, 40), Fraction(799, 40)), (60, Fraction(799, 40), Fraction(3, 40)),
             (100 if thorough else 60, Fraction(5), Fraction(5)), (2, Fraction(1), Fraction(3))]
-    for _ in range(200 if thorough else 60):
+    for _ in range(200 if thorough else 40):
         trip.append((rng.randrange(1, 61), Fraction(rng.randrange(3, 800), 40), Fraction(rng.randrange(3, 800), 40)))
     for n, a, b in trip:
         d = BetaBinomial(n, float(a), float(b))
